@@ -96,7 +96,7 @@ type originInfo struct {
 	noImplicitWithdraw bool
 	isFromExternal     bool
 	eor                bool
-	stale              bool
+	stale              atomic.Bool
 }
 
 type RpkiValidationReasonType string
@@ -424,11 +424,11 @@ func (path *Path) GetSource() *PeerInfo {
 }
 
 func (path *Path) MarkStale(s bool) {
-	path.OriginInfo().stale = s
+	path.OriginInfo().stale.Store(s)
 }
 
 func (path *Path) IsStale() bool {
-	return path.OriginInfo().stale
+	return path.OriginInfo().stale.Load()
 }
 
 func (path *Path) IsRejected() bool {
